@@ -6,6 +6,7 @@ package harness
 // (the worker process may be killed), the smallest one wins.
 
 import (
+	"bytes"
 	"encoding/json"
 	"fmt"
 	"os"
@@ -144,4 +145,118 @@ func FuzzRapid(f *testing.F) {
 		i := rapid.IntRange(0, len(props)-1).Draw(rt, "property")
 		props[i].Run(rt)
 	}))
+}
+
+// acceptedExact decodes w as type tn; ok only if the decoder accepts it and re-encoding the result reproduces the
+// consumed bytes exactly - then w[:n] is literally "a valid encoding" in the sense of C07/C11.
+func acceptedExact(tn string, w []byte) (n int, fp uint64, ok bool) {
+	obj := regByName[tn].New()
+	buf := bytes.NewBuffer(append([]byte{}, w...))
+	if err, pan, _ := safely(func() error { return DecodeAny(obj, buf) }); err != nil || pan != nil {
+		return 0, 0, false
+	}
+	n = len(w) - buf.Len()
+	var out bytes.Buffer
+	if err, pan, _ := safely(func() error { return EncodeAny(obj, &out) }); err != nil || pan != nil || !bytes.Equal(out.Bytes(), w[:n]) {
+		return 0, 0, false
+	}
+	return n, DeepFingerprint(obj), true
+}
+
+type CaseFuzzBytes struct {
+	Type string   `json:"type"`
+	W    HexBytes `json:"w"`
+	Tail HexBytes `json:"tail,omitempty"`
+}
+
+// oracleC11Bytes: every strict prefix of a byte string that is exactly the encoding of what it decodes to is rejected.
+func oracleC11Bytes(c *CaseFuzzBytes) *Failure {
+	n, _, ok := acceptedExact(c.Type, c.W)
+	if !ok || n == 0 {
+		return nil
+	}
+	step := 1
+	if n > 1024 {
+		step = n / 1024
+	}
+	for k := 0; k < n; k += step {
+		obj := regByName[c.Type].New()
+		err, pan, _ := safely(func() error { return DecodeAny(obj, bytes.NewBuffer(c.W[:k:k])) })
+		if pan != nil {
+			return failf("C11/"+c.Type+"/panic", "Decode panicked on the first %d of %d bytes: %v", k, n, pan)
+		}
+		if err == nil {
+			return failf("C11/"+c.Type+"/accepted-prefix", "Decode reported success on the first %d of %d bytes of a valid encoding (%s)", k, n, hexClip(c.W[:n]))
+		}
+	}
+	return nil
+}
+
+// oracleC07Bytes: a valid encoding followed by further bytes: exactly the encoding is consumed, the rest is left
+// untouched, and the message is the one decoded from the encoding alone.
+func oracleC07Bytes(c *CaseFuzzBytes) *Failure {
+	n, fp, ok := acceptedExact(c.Type, c.W)
+	if !ok {
+		return nil
+	}
+	in := append(append([]byte{}, c.W[:n]...), c.Tail...)
+	obj := regByName[c.Type].New()
+	buf := bytes.NewBuffer(in)
+	err, pan, _ := safely(func() error { return DecodeAny(obj, buf) })
+	if pan != nil {
+		return failf("C07/"+c.Type+"/panic", "Decode panicked on a valid encoding followed by %d further bytes: %v", len(c.Tail), pan)
+	}
+	if err != nil {
+		return failf("C07/"+c.Type+"/rejected", "Decode rejected a valid message (%d bytes) followed by %d further bytes: %v", n, len(c.Tail), err)
+	}
+	if !bytes.Equal(buf.Bytes(), c.Tail) {
+		return failf("C07/"+c.Type+"/consumed", "a %d-byte message followed by %d further bytes: Decode left %d bytes", n, len(c.Tail), buf.Len())
+	}
+	if DeepFingerprint(obj) != fp {
+		return failf("C07/"+c.Type+"/value", "the message decoded differently when followed by %d further bytes", len(c.Tail))
+	}
+	return nil
+}
+
+func init() {
+	registerReplay("c11bytes", oracleC11Bytes)
+	registerReplay("c07bytes", oracleC07Bytes)
+}
+
+func fuzzFailAny(t *testing.T, prop, check string, c any, size int, fl *Failure) {
+	if wd := os.Getenv("VERIF_WORK"); wd != "" {
+		rec := ViolationRec{Property: prop, Check: check, Scope: "gofuzz", Signature: fl.Signature, Failure: fl.Msg, FoundBy: "gofuzz", Case: c}
+		b, _ := json.Marshal(rec)
+		_ = os.WriteFile(filepath.Join(wd, fmt.Sprintf("fuzzviol.%s.%d.json", prop, size)), b, 0o644)
+	}
+	t.Fatalf("%s: %s", fl.Signature, fl.Msg)
+}
+
+func FuzzC11(f *testing.F) {
+	fuzzSeeds(f)
+	f.Fuzz(func(t *testing.T, data []byte) {
+		tn, w := fuzzType(data)
+		c := &CaseFuzzBytes{Type: tn, W: w}
+		if fl := oracleC11Bytes(c); fl != nil {
+			fuzzFailAny(t, "C11", "c11bytes", c, len(w), fl)
+		}
+	})
+}
+
+// FuzzC07: the last quarter of the input serves as the tail.
+func FuzzC07(f *testing.F) {
+	fuzzSeeds(f)
+	f.Fuzz(func(t *testing.T, data []byte) {
+		tn, w := fuzzType(data)
+		cut := len(w) - len(w)/4
+		c := &CaseFuzzBytes{Type: tn, W: w[:cut], Tail: append(HexBytes{}, w[cut:]...)}
+		// the encoding may end before cut: whatever lies between belongs to the tail as well
+		if n, _, ok := acceptedExact(tn, c.W); ok {
+			c.Tail = append(append(HexBytes{}, c.W[n:]...), c.Tail...)
+			c.W = c.W[:n]
+		}
+		if fl := oracleC07Bytes(c); fl != nil {
+			fuzzFailAny(t, "C07", "c07bytes", c, len(w), fl)
+		}
+	})
 }
